@@ -192,3 +192,99 @@ def expression_sources(head: str, k: int, tokens: list[str]) -> Iterator[tuple[s
 # programs for the extra environment: every extra construct with a few standard ones around it
 X_LEAVES = G.LEAVES_EXTRA + ["{{ x }}", "{{ w }}", "{% break %}", "{% include 'p' %}", "{% assign v = x %}"]
 X_BLOCKS = G.BLOCKS_EXTRA + ["{% if x %}{B}{% endif %}", "{% for v in a %}{B}{% endfor %}"]
+
+
+# ---------------------------------------------------------------------------
+# K  error-class corpus: for every LiquidError subclass the engine can raise while parsing,
+# loading a partial or rendering, at least one snippet that raises it in strict mode
+# (env kinds: D default, X extra, L small resource limits, S StrictUndefined).
+# ---------------------------------------------------------------------------
+K_DATA = {"x": 1, "a": [1, 2, 3], "y": {"a": 1}, "u": [3, "a", None, {}], "n": None, "s": "str"}
+K_LIMITS = {"context_depth_limit": 8, "block_nesting_limit": 3, "loop_iteration_limit": 5, "local_namespace_limit": 40, "output_stream_limit": 30}
+K_NEUTRAL = ["t", "{{ x }}"]
+K_SNIPPETS: dict[str, list[str]] = {
+    "D": [
+        "{% if %}i{% endif %}",                            # LiquidSyntaxError (parse)
+        "{% break %}",                                     # LiquidSyntaxError (render, interrupt)
+        "{% for v in a limit: 'z' %}{{ v }}{% endfor %}",  # LiquidTypeError
+        "{% include 'nosuchtemplate' %}",                  # TemplateNotFoundError
+        "{% render 'nosuchtemplate' %}",
+        "{% include n %}",
+        "{% render 'inc' %}",                              # DisabledTagError
+        "{{ x | nosuchfilter }}",                          # UnknownFilterError
+        "{{ x | plus: 1, 2 }}",                            # FilterArgumentError
+        "{{ x | divided_by: 0 }}",
+        "{{ u | sort }}",                                  # FilterError
+        "{{ u | sum }}",
+        "{% include 'bad1' %}",                            # syntax error while loading a partial
+    ],
+    "X": [
+        "{{ x | index: 1 }}",                              # FilterValueError
+        "{% extends 'nosuchtemplate' %}",                  # TemplateNotFoundError (inheritance)
+        "{% extends 'reqbase' %}",                         # RequiredBlockError
+        "{% block a required %}r{% endblock %}",
+        "{% extends 'dupbase' %}",                         # TemplateInheritanceError
+        "{% extends 'selfext' %}",
+        "{% translate %}{% if x %}a{% endif %}{% endtranslate %}",  # TranslationSyntaxError
+        "{{ s | datetime }}",                              # LiquidValueError (render)
+        "{{ y | json: 'a' }}",                             # FilterArgumentError
+        "{% call nosuchmacro %}",
+    ],
+    "L": [
+        "{% if x %}{% if x %}{% if x %}{% if x %}d{% endif %}{% endif %}{% endif %}{% endif %}",  # BlockNestingError
+        "{% include 'deep' %}",
+        "{% for v in (1..10) %}{{ v }}{% endfor %}",       # LoopIterationLimitError
+        "{% tablerow v in (1..10) %}{{ v }}{% endtablerow %}",
+        "{% assign q = 'aaaaaaaaaaaaaaaaaaaa' %}{% assign r = 'bbbbbbbbbbbbbbbbbbbbbbbbbb' %}",  # LocalNamespaceLimitError
+        "0123456789012345678901234567890123456789",        # OutputStreamLimitError
+        "{% include 'big' %}",
+        "{% render 'self' %}",                             # ContextDepthError
+    ],
+    "S": [
+        "{{ nosuch }}",                                    # UndefinedError
+        "{% if nosuch %}a{% endif %}",
+        "{% for v in nosuch %}{{ v }}{% endfor %}",
+        "{% render 'undef' %}",
+        "{{ a[9] }}",
+        "{{ x | nosuchfilter }}",
+    ],
+}
+# expensive snippets: used alone (in every wrapper and through partials), not in pairs
+K_SOLO: dict[str, list[str]] = {
+    "D": ["{{ " + "9" * 5000 + " }}"],                     # LiquidValueError (parse time)
+    "X": [], "L": [], "S": [],
+}
+K_WRAPPERS = [
+    "{B}",
+    "{% if x %}{B}{% endif %}",
+    "{% for v in a %}{B}{% endfor %}",
+    "{% capture c %}{B}{% endcapture %}[{{ c }}]",
+]
+PARTIALS.update({
+    "self": "s{% render 'self' %}",
+    "deep": "{% if x %}{% if x %}{% if x %}{% if x %}d{% endif %}{% endif %}{% endif %}{% endif %}",
+    "big": "0123456789012345678901234567890123456789",
+    "undef": "<u:{{ nosuch }}>",
+})
+for _kind, _snips in K_SNIPPETS.items():
+    for _i, _s in enumerate(_snips + K_SOLO[_kind]):
+        PARTIALS[f"k_{_kind}_{_i}"] = "<" + _s + ">"
+
+
+def k_sources(kind: str) -> Iterator[str]:
+    """Singles, ordered pairs (same / different error classes twice in one template), each inside every
+    wrapper, and every snippet reached through render / include of a partial holding it."""
+    snips = K_SNIPPETS[kind]
+    items = snips + K_NEUTRAL
+    for w in K_WRAPPERS:
+        for a in snips + K_SOLO[kind]:
+            yield w.replace("{B}", a)
+        for a in items:
+            for b in items:
+                if a in K_NEUTRAL and b in K_NEUTRAL:
+                    continue
+                yield w.replace("{B}", a + b)
+    for i in range(len(snips) + len(K_SOLO[kind])):
+        for tag in ("render", "include"):
+            yield "{% " + tag + " 'k_" + kind + "_" + str(i) + "' %}"
+            yield "a{% " + tag + " 'k_" + kind + "_" + str(i) + "' %}{% " + tag + " 'k_" + kind + "_" + str(i) + "' %}b"
